@@ -7,7 +7,8 @@ import numpy as np
 from common import import_qib, cq, q, uncq
 
 ANGLES = [0.0, math.pi / 2, -math.pi / 2, math.pi, -math.pi, 2 * math.pi, math.pi / 4, 3 * math.pi / 4, 1e-300, 1e-9, 1e6 + 0.25, 1e12, -7.5]
-VECS = [(0.0, 0.0, 0.0), (1.0, 0.0, 0.0), (0.0, -2.0, 0.0), (0.0, 0.0, math.pi), (1e-200, 0.0, 0.0), (3.0, -4.0, 12.0)]
+VECS = [(0.0, 0.0, 0.0), (1.0, 0.0, 0.0), (0.0, -2.0, 0.0), (0.0, 0.0, math.pi), (1e-200, 0.0, 0.0), (3.0, -4.0, 12.0),
+        (0.0, 0.0, 2 * math.pi), (4.0, -3.0, 5.0), (9.0, 2.0, -6.0), (0.0, 4 * math.pi, 0.0), (-7.0, 0.0, 0.0)]   # incl. |v| >= 2 pi (spin-1/2 rotations are 4 pi periodic)
 
 _ctx = {}
 
@@ -204,6 +205,10 @@ def warm_up(g):
     """use the object once (every public view), as a caller would before changing its parameters"""
     try:
         g.as_matrix(); g.inverse().as_matrix(); g.is_hermitian(); g.is_unitary(); g.num_wires
+        try:
+            g.as_tensornet()
+        except Exception:
+            pass
         f = ctx()["field"]
         if all(p is not None for p in g.particles()) and len(g.particles()) == g.num_wires:
             g.as_circuit_matrix([f] + [x for x in g.fields() if x is not f])
@@ -234,7 +239,7 @@ def reparam(g, rng):
     elif n == "PrepareGate":
         v = np.array(g.vec, dtype=float)
         v[rng.randrange(len(v))] = rng.choice([-1.5, 0.25, 2.0])
-        g.vec = v
+        g.vec = v / np.sum(np.abs(v))            # the constructor's invariant: 1-norm 1
     elif n == "TimeEvolutionGate":
         g.t = rng.uniform(-3, 3)
         f = rng.choice([0.5, -1.0, 2.0])
